@@ -1,0 +1,8 @@
+//go:build !verif
+// +build !verif
+
+package ion
+
+// verifYield marks an access to state shared between goroutines; it does nothing unless the
+// package is built with -tags verif (see export_verif.go).
+func verifYield(string, interface{}) {}
